@@ -140,8 +140,9 @@ func c03Run(maxCC1, maxCC2, maxAge, maxCookie int) {
 
 	verifAssert("C03.stored-only-if-shareable", verifImplies(got > 0, shareable))
 	verifAssert("C03.stored-only-if-positive-lifetime", verifImplies(got > 0, lifetime > 0))
-	verifAssert("C03.lifetime-is-smaxage-else-maxage-minus-age", verifImplies(shareable, got == lifetime))
-	verifAssert("C03.not-shareable-means-zero", verifImplies(verifNot(shareable), got == 0))
+	// a shareable response is stored for exactly the origin's lifetime (any non-positive value means "not stored")
+	verifAssert("C03.lifetime-is-smaxage-else-maxage-minus-age", verifImplies(shareable, verifIteBool(lifetime > 0, got == lifetime, got <= 0)))
+	verifAssert("C03.not-shareable-is-not-stored", verifImplies(verifNot(shareable), got <= 0))
 	verifReach("C03.maxage.end")
 }
 
@@ -183,6 +184,7 @@ func Harness_C03_age_overflow() {
 	lc := []byte(cc)
 	mFound, mVal := c03Directive(lc, "max-age=")
 	base := verifIteInt(mFound, mVal, 0)
-	verifAssert("C03.age-arith", got == base-c03Age(age))
+	want := base - c03Age(age)
+	verifAssert("C03.age-arith", verifIteBool(want > 0, got == want, got <= 0))
 	verifReach("C03.age.end")
 }
